@@ -1,14 +1,15 @@
-"""Regenerates the known_findings.json entry KF-C18-a (open finding of property C18).
+"""DORMANT TOOL.  KF-C18-a was repaired in /repo by 175f7ec and is recorded as `fixed` in known_findings.json; nothing of
+property C18 is suppressed any more and this module is not used by bin/check.  It is kept so that an input-matched
+known-finding entry can be regenerated quickly should an open finding of the brute force ever have to be recorded again:
 
     cd <verif> && PYTHONPATH=/repo:harness /venv/bin/python -m props.c18_known [--write]
 
-Runs the FIXED brute-force case set of harness/props/c18.py (det_bf_cases('thorough'), which contains the quick set;
-constant seeds, independent of VERIF_SEED) and the corpus cases of corpus/C18 through the implementation and the
-extracted model (the oracle must be built: bin/check C18 quick does it), keeps the inputs on which the judge reports a
-mismatch of the kind described by the finding (every answer is None or a partition accepted by the verified checker
-with at most k axes; only minimality / the None contract is wrong; optimum < ceil(m/2)), and prints the entry with
-the sha-256 of exactly these inputs.  A failing input that is NOT of that kind is listed separately and left out (it
-stays a VIOLATION).  --write replaces / appends the entry in known_findings.json."""
+It runs the fixed core of the m >= 6 brute-force campaign (c18.det_bf_cases) and the c18.bf cases of corpus/C18 through
+the implementation and the extracted model, keeps the inputs on which the judge reports a mismatch of the kind
+"sound but not minimum" (every answer is None or a partition accepted by the verified checker with at most k axes; only
+minimality / the None contract is wrong; optimum < ceil(m/2)) and prints an entry with the sha-256 of exactly these
+inputs; failing inputs of any other kind are listed separately and left out (they stay VIOLATIONs).  --write replaces /
+appends the entry in known_findings.json (do not use while the finding is recorded as fixed)."""
 import glob
 import json
 import os
